@@ -295,7 +295,12 @@ def run_native_unit(uname, ucfg, tier, scratch):
     t0 = time.time()
     ws = os.path.join(scratch, "ws-" + uname)
     test_src_path = os.path.join(VERIF, ucfg["test"])
-    if ucfg.get("append_to"):
+    if ucfg.get("miri"):
+        # the same kind of enumeration executed by Miri (nightly): every memory access and borrow
+        # of the run is checked for undefined behaviour (out-of-bounds, aliasing &mut, uninit reads)
+        cmd = ["cargo", "+nightly", "miri", "test", "--offline", "-p", ucfg["crate"], "--test",
+               os.path.splitext(os.path.basename(ucfg["dest"]))[0], "--", "--nocapture"]
+    elif ucfg.get("append_to"):
         # internal enumeration: the module is appended to an existing #[cfg(test)] file of the crate
         # (it needs crate-private builders) and selected by its name
         cmd = ["cargo", "test", "--release", "--offline", "-p", ucfg["crate"], "--lib",
@@ -324,6 +329,18 @@ def run_native_unit(uname, ucfg, tier, scratch):
     except Exception as e:
         out["status"] = "undecided"
         out["reason"] = f"native enumeration could not run: {e}"
+        out["wall_s"] = time.time() - t0
+        return out
+    ub = [l.strip() for l in text.splitlines() if "Undefined Behavior" in l]
+    if ub:
+        # Miri stops at the first undefined behaviour: report it with its diagnostic
+        k0, o0 = list(ucfg["obligations"].items())[0]
+        rec = {"name": f"{uname}:{o0}", "backend": "native", "kind": "bounded", "bound": ucfg.get("bound"),
+               "harness": ucfg["test"], "function": None, "time_s": time.time() - t0, "solver_s": 0.0,
+               "status": "failed", "reason": ub[0][:600], "checks": 0, "covers": [1, 1],
+               "detail": text[text.find("Undefined Behavior") - 200:][:4000], "form": "miri-enumeration"}
+        out["obligations"].append(rec)
+        out["native_found"][rec["name"]] = ["FOUND kind=" + k0 + " " + ub[0]] + text[text.find("Undefined Behavior"):].splitlines()[1:14]
         out["wall_s"] = time.time() - t0
         return out
     aborted = "memory allocation of" in text or "signal: 6" in text or "SIGABRT" in text or "SIGSEGV" in text
@@ -369,7 +386,7 @@ def run_native_unit(uname, ucfg, tier, scratch):
                "harness": ucfg["test"], "function": None, "time_s": time.time() - t0, "solver_s": 0.0,
                "status": "failed" if hits else "discharged",
                "reason": (hits[0][:600] if hits else ""), "checks": n_cases, "covers": [1, 1],
-               "detail": "\n".join(hits[:15]), "form": "native-exhaustive-enumeration"}
+               "detail": "\n".join(hits[:15]), "form": "miri-enumeration" if ucfg.get("miri") else "native-exhaustive-enumeration"}
         out["obligations"].append(rec)
         if hits:
             out["native_found"][rec["name"]] = hits[:15]
